@@ -11,7 +11,9 @@ LEVEL = "exploration"
 TOL = 1e-4
 
 KEYPOINTS = [[0.0, 1.0], [0.0, 1.0, 2.0], [0.0, 1.0, 3.0], [0.0, 0.1, 1.0, 4.0],
-             [-1.0, 0.0, 0.5, 2.0, 10.0]]
+             [-1.0, 0.0, 0.5, 2.0, 10.0],
+             # features on a very small / very large scale (piece lengths 3e-7 .. 3e6)
+             [0.0, 2e-7, 5e-7, 1e-6], [-1e6, 0.0, 3e6]]
 
 
 # ----------------------------------------------------------------- PWL layer
@@ -22,7 +24,7 @@ def pwl_items(tier):
       if cyclic and len(kp) < 3:
         continue
       for missing in ("none", "value-learned", "value-fixed", "tensor-learned", "tensor-fixed",
-                      "value-fixed0", "tensor-fixed0"):
+                      "value-fixed0", "tensor-fixed0", "both-learned", "both-fixed"):
         for layout in ("basis-shared", "words-shared", "perunit"):
           for split in (False, True):
             if split and layout != "perunit":
@@ -39,7 +41,7 @@ def _build_pwl(kp, units, cyclic, missing, split, learned=False):
   kw = {}
   if missing != "none":
     kw["impute_missing"] = True
-    if missing.startswith("value"):
+    if missing.startswith("value") or missing.startswith("both"):
       # a value inside the range (a keypoint!); for the '0' variants the falsy value 0.0 / kp[0]
       kw["missing_input_value"] = float(kp[0] if missing.endswith("0") else kp[1])
     if missing.endswith("fixed"):
@@ -100,6 +102,13 @@ def pwl_case(item, ctx=None):
     miss_mask = ismiss > 0
   elif missing.startswith("value"):
     miss_mask = X == np.float32(kp[0] if missing.endswith("0") else kp[1])
+  elif missing.startswith("both"):
+    # a sentinel value is configured AND an is_missing tensor is passed: an input is missing when
+    # it is flagged or equal to missing_input_value (rows 1, 4, 7, ... so that the sentinel row is
+    # flagged for some layouts and unflagged for others)
+    ismiss = np.zeros(X.shape, dtype=np.float32)
+    ismiss[1::3] = 1.0
+    miss_mask = (ismiss > 0) | (X == np.float32(kp[1]))
   out = _call(layer, X, ismiss)
   # reference
   ref = np.zeros((X.shape[0], units))
@@ -297,7 +306,7 @@ def run(ctx):
                         if len(kp) <= 4 else (-8.0, 0.0, 8.0)))
   items = alpha.rotate(items, ctx.seed)
   ctx.rule = (
-      "PWL: keypoint vectors x cyclic x 5 missing modes x {basis kernels with one shared input "
+      "PWL: keypoint vectors x cyclic x 9 missing modes (sentinel value, is_missing tensor, both; learned / fixed / zero-valued missing output) x {basis kernels with one shared input "
       "column, all words of {-1,0,1}^n (+images) with a shared column, per-unit inputs} x split; "
       "inputs = every keypoint, midpoints, quarter points, outside both ends, the missing value; "
       "learned keypoints for ALL logit words over {-3,0,3}^(n-1); categorical: buckets x units x "
